@@ -550,7 +550,15 @@ impl Datamodel for ECMAScriptDatamodel {
 
     fn set_arc(&mut self, name: &str, data: DataArc, allow_undefined: bool) {
         let v = self.data_arc_to_js(&data);
-        self.set_js_property(name, v);
+        // "throw": system variables are not writable (e.g. as target of 'idlocation').
+        let r = self
+            .context
+            .global_object()
+            .set(js_string!(name), v, true, &mut self.context);
+        if r.is_err() {
+            self.internal_error_execution();
+            return;
+        }
         if allow_undefined {
             self.global_data
                 .lock()
